@@ -3692,6 +3692,7 @@ sexp sexp_read_raw (sexp ctx, sexp in, sexp *shares) {
           if (c2 + 1 >= (int)sexp_vector_length(*shares)) {
             tmp2 = sexp_make_vector(ctx, sexp_make_fixnum(sexp_vector_length(*shares)*2), SEXP_VOID);
             memcpy(sexp_vector_data(tmp2), sexp_vector_data(*shares), (sexp_vector_length(*shares)-1)*sizeof(sexp));
+            sexp_vector_data(tmp2)[sexp_vector_length(tmp2)-1] = sexp_vector_data(*shares)[sexp_vector_length(*shares)-1];
             *shares = tmp2;
           }
           sexp_vector_data(*shares)[c2] = sexp_make_reader_label(c2);
